@@ -60,9 +60,9 @@ class PyMapped:
 
 
 class State:
-    __slots__ = ('conds', 'env', 'heap', 'fields', 'ghost', 'taint', 'escaped', 'mapped', 'cur_exc', 'elem_preds')
+    __slots__ = ('conds', 'env', 'heap', 'fields', 'ghost', 'taint', 'escaped', 'mapped', 'cur_exc', 'elem_preds', 'inited')
 
-    def __init__(self, conds=None, env=None, heap=None, fields=None, ghost=None, taint=False, escaped=frozenset(), mapped=None, cur_exc=None, elem_preds=()):
+    def __init__(self, conds=None, env=None, heap=None, fields=None, ghost=None, taint=False, escaped=frozenset(), mapped=None, cur_exc=None, elem_preds=(), inited=frozenset()):
         self.conds = conds or []
         self.env = env or {}
         self.heap = heap or {}
@@ -72,10 +72,11 @@ class State:
         self.escaped = escaped
         self.mapped = mapped or {}
         self.cur_exc = cur_exc
+        self.inited = inited              # (fresh ref, attribute) pairs already initialised (see Engine.setattr)
         self.elem_preds = elem_preds      # ((VL term, predicate), ...): "every element of this sequence satisfies predicate"
 
     def copy(self, **kw):
-        s = State(self.conds, self.env, self.heap, self.fields, self.ghost, self.taint, self.escaped, self.mapped, self.cur_exc, self.elem_preds)
+        s = State(self.conds, self.env, self.heap, self.fields, self.ghost, self.taint, self.escaped, self.mapped, self.cur_exc, self.elem_preds, self.inited)
         for k, v in kw.items():
             setattr(s, k, v)
         return s
@@ -772,6 +773,15 @@ class Engine:
         raise OutOfSubset("attribute kind")
 
     def setattr(self, obj, attr, val, st):
+        # First write to an attribute of an object allocated by this activation (concrete negative reference): the
+        # allocation is modelled as picking a blank object of the initial heap whose attribute already holds the value
+        # ("prophecy" allocation).  The fact lands on the initial array, so specification functions, which read the
+        # initial heap, see freshly constructed immutable objects.  Later writes are ordinary stores.
+        o = z3.simplify(obj)
+        if z3.is_app(o) and o.decl().name() == 'Obj' and z3.is_int_value(o.arg(1)) and o.arg(1).as_long() < 0:
+            key = (o.arg(1).as_long(), attr)
+            if key not in st.inited and attr not in st.fields:
+                return st.copy(inited=st.inited | {key}).assume(z3.Select(field0(attr), o) == val)
         arr = st.fields.get(attr, field0(attr))
         f = dict(st.fields)
         f[attr] = z3.Store(arr, obj, val)
